@@ -216,6 +216,36 @@ func run(e *core.Env) {
 		e.Probe("session_re_keyed_after_earlier_traffic")
 	}
 
+	// ... or A has been receiving B's traffic: every sealed frame reports how much of the peer's
+	// last 64 frames of its class arrived (the receive-rate byte, a protected header field).
+	// After 64 frames without a gap that report is exactly 100 %, after losses something less;
+	// a fresh session reports 0.
+	if tp.Chance(1, 3) {
+		lossy := tp.Chance(1, 3)
+		for i, k := 0, []int{64, 65, 70 + tp.Intn(60), 1 + tp.Intn(63)}[tp.Intn(4)]; i < k; i++ {
+			for _, pmt := range []frame.MessageType{frame.NetworkTraffic, frame.RouterCtrl} {
+				body := tp.Bytes(1 + tp.Intn(40))
+				f, err := B.Inst.Builder.NewFrameV1(B.IP, A.IP, pmt, nil, body, nil)
+				if err != nil {
+					e.Infra("prelude frame: %v", err)
+				}
+				if err := f.Seal(sessBA); err != nil {
+					e.Infra("prelude seal: %v", err)
+				}
+				d, _ := f.FrameDataWithMargins(0, 0)
+				w := append([]byte(nil), d...)
+				f.ReturnToPool()
+				if lossy && tp.Chance(1, 5) {
+					continue
+				}
+				if got, err := unsealAt(A.Inst.Builder, sessAB, w); err != nil || !bytes.Equal(got, body) {
+					e.Fail("round-trip-fails/earlier-traffic", "frame %d of earlier traffic B->A does not round-trip: %v", i, err)
+				}
+			}
+		}
+		e.Probe("sealer_has_been_receiving_the_peers_traffic")
+	}
+
 	mt := msgTypes[tp.Intn(len(msgTypes))]
 	encrypted := mt.IsEncrypted()
 	authSize := 64
